@@ -40,18 +40,22 @@ pub struct TestRng {
     pub log: Vec<ReqLog>,
     pub delivered: usize,
     pub infallible_panics: bool,
+    /// error code reported on a scripted failure (rand_core::Error code)
+    pub err_code: u32,
 }
+
+/// error codes a caller's generator may plausibly report: custom range, the internal range used by
+/// getrandom (UNSUPPORTED = 0x8000_0000, ...), and a raw OS errno
+pub const ERR_CODES: [u32; 5] = [rand_core::Error::CUSTOM_START + 7, 0x8000_0000, 0x8000_0001, 0x8000_000B, 5];
 
 impl TestRng {
     pub fn replay(data: &[u8]) -> TestRng {
-        TestRng { data: data.to_vec(), pos: 0, faults: vec![], log: vec![], delivered: 0, infallible_panics: false }
+        TestRng { data: data.to_vec(), pos: 0, faults: vec![], log: vec![], delivered: 0, infallible_panics: false, err_code: ERR_CODES[0] }
     }
     pub fn with_faults(data: &[u8], faults: Vec<Fault>, infallible_panics: bool) -> TestRng {
-        TestRng { data: data.to_vec(), pos: 0, faults, log: vec![], delivered: 0, infallible_panics }
+        TestRng { data: data.to_vec(), pos: 0, faults, log: vec![], delivered: 0, infallible_panics, err_code: ERR_CODES[0] }
     }
-    fn err() -> rand_core::Error {
-        rand_core::Error::from(NonZeroU32::new(rand_core::Error::CUSTOM_START + 7).expect("nonzero"))
-    }
+    fn err(&self) -> rand_core::Error { rand_core::Error::from(NonZeroU32::new(self.err_code).expect("nonzero")) }
     fn take(&mut self, out: &mut [u8]) -> bool {
         if self.pos + out.len() > self.data.len() {
             return false;
@@ -95,12 +99,12 @@ impl RngCore for TestRng {
                 if ok {
                     Ok(())
                 } else {
-                    Err(Self::err())
+                    Err(self.err())
                 }
             }
             Fault::ErrBefore => {
                 self.log.push(ReqLog { len: out.len(), via: "try_fill_bytes", ok: false });
-                Err(Self::err())
+                Err(self.err())
             }
             Fault::ErrAfter(k) => {
                 let k = (k as usize).min(out.len());
@@ -108,7 +112,7 @@ impl RngCore for TestRng {
                 out[..avail].copy_from_slice(&self.data[self.pos..self.pos + avail]);
                 self.pos += avail;
                 self.log.push(ReqLog { len: out.len(), via: "try_fill_bytes", ok: false });
-                Err(Self::err())
+                Err(self.err())
             }
         }
     }
